@@ -73,10 +73,14 @@ def k_simplex(k: int, id: Any = None,
         # it's an 0-simplex, just create a new one
         c.addSimplex(id=id, attr=attr)
     else:
-        # create a basis of new simplices
+        # create a basis of new simplices (avoiding the name requested
+        # for the simplex itself)
         bs = []
         for i in range(k + 1):
-            bs.append(c.addSimplex())
+            p = c.representation().newSimplex(0)
+            while p == id:
+                p = c.representation().newSimplex(0)
+            bs.append(c.addSimplex(id=p))
 
         # create the new simplex with this basis, which
         # will automatically create all the faces
